@@ -61,6 +61,12 @@ CHECKS = {
  "C19": dict(design="4 (C19)", tech=SEQ,
    text="After every token of every handle history (clone, subscribe, subscribe_reset, downgrade, weak clone, upgrade, into_shared, subscriber clone, every drop; up to 3 handles, 3 subscribers, 2 weak references; depth 4 quick / 5 thorough) observable_count, subscriber_count (both observable kinds), strong_count and weak_count are compared with the model, for both lock flavours.",
    note="found the async-flavour double count repaired by repo commit 0ab6e9f"),
+ "C18": dict(design="5 (C18)", tech="exhaustive enumeration of all inputs up to a size bound on the real code (explicit-state, no sampling)",
+   text="All vectors of length 0..3 (0..5 thorough) over three values x all eleven diff kinds with every index/length 0..len+2 and every payload of length 0..2 (0..3) x four element mappings (identity, +10 into another type, constant, to String): apply(map(d), map(v)) == map(apply(d, v)) including agreement on panics, map(identity) == d, and apply equals the documented plain-vector meaning, panicking exactly for insert/set/remove past the end. The input space within the bound is enumerated completely; the property has no history or schedule dimension.",
+   note="imbl::Vector trusted; sizes beyond the bound not covered"),
+ "C20": dict(design="5 (C20)", tech=SEQ,
+   text="The vec, adapter/chain and observable enumerations re-instantiated with an instrumented element/value type whose thread-local registry sees every construction, clone and drop: a drop, clone, comparison or read of an instance that is not live is an immediate violation; after each sequence, once every observable, vector, subscriber, stream, adapter, replica and model is dropped, no instance may be alive. Token sets reach the three unsafe sites (into_shared with and without subscribers, the reusable boxed receive future on every completed poll, the YieldBatch->Recv swap incl. a stream dropped mid-batch). If the subject kills the process (double free, segfault) the driver re-runs the enumeration single-threaded under glibc's checking allocator, bisects to the culprit sequence and reports it with a replayable range.",
+   note="a use-after-free that neither touches the instrumented type nor trips the allocator is not seen; a signal death is accepted as a verdict only for this property"),
 }
 
 NOT_YET = "check not built yet (work in progress, see DESIGN.md section 12)"
